@@ -512,13 +512,15 @@ func runSeq(c *vf.Ctx, tmp string, i int, steps []step) (res seqResult) {
 		cur := &res.Steps[len(res.Steps)-1]
 		if err == vf.ErrProcDied {
 			p.Wait()
-			if st.Op == "snapshot-close-fails-late" {
-				// by design: incremental sink close failure exits the process
+			lb, _ := os.ReadFile(logPath)
+			designed := strings.Contains(string(lb[max(0, len(lb)-4000):]), "failure during incremental snapshot, exiting process")
+			if (st.Op == "snapshot-close-fails-late" || st.Op == "snapshot-close-fails-early") && designed {
+				// by design: any failure of an incremental sink's Close exits the process
 				res.Died++
 				cur.Note = "process exited (by design)"
 				if err := start(); err != nil {
 					res.Problem = "node does not restart after the designed exit on a failed incremental snapshot close: " + err.Error()
-					res.Key = "restart-failed-after:snapshot-close-fails-late"
+					res.Key = "restart-failed-after:" + st.Op
 					p = nil
 					return
 				}
